@@ -304,7 +304,7 @@ func TestC14RowBoundary(t *testing.T) {
 		m.invariant(t, false)
 		steps := rapid.IntRange(3, 40).Draw(t, "steps") // the population walks around the row boundary
 		for s := 0; s < steps; s++ {
-			switch rapid.SampledFrom([]string{"delLast", "delFirst", "delNearBoundary", "delRandom", "add", "add", "add", "add"}).Draw(t, "op") {
+			switch rapid.SampledFrom([]string{"delLast", "delFirst", "delNearBoundary", "delRandom", "delAtRowEdge", "delAtRowEdge", "add", "add", "add", "add", "add"}).Draw(t, "op") {
 			case "delLast":
 				m.logf("del last (fd %d)", m.order[len(m.order)-1].fd)
 				m.del(t, len(m.order)-1)
@@ -318,6 +318,23 @@ func TestC14RowBoundary(t *testing.T) {
 				}
 				m.logf("del #%d (fd %d) of %d", i, m.order[i].fd, len(m.order))
 				m.del(t, i)
+			case "delAtRowEdge":
+				// aimed at a position of the matrix (registration order and position part company after the
+				// first compaction): the last / first columns of the rows at and below the frontier
+				row := frontier(&m.cm) - rapid.IntRange(0, 1).Draw(t, "rowsBelowFrontier")
+				col := rapid.SampledFrom([]int{65535, 65535, 65534, 0, 1}).Draw(t, "col")
+				c := connAt(&m.cm, row, col)
+				if c == nil {
+					m.logf("nothing at (%d,%d)", row, col)
+					continue
+				}
+				for i := range m.order {
+					if m.order[i] == c {
+						m.logf("del the connection at (%d,%d) (fd %d) of %d", row, col, c.fd, len(m.order))
+						m.del(t, i)
+						break
+					}
+				}
 			case "delRandom":
 				i := rapid.IntRange(0, len(m.order)-1).Draw(t, "i")
 				m.logf("del #%d (fd %d) of %d", i, m.order[i].fd, len(m.order))
